@@ -44,8 +44,10 @@ func workList() (items []workItem, bound string) {
 	}
 	nA := len(items)
 	var pl []*leaf
-	for _, n := range plannerLeafNames {
-		pl = append(pl, byName[n])
+	for i, n := range plannerLeafNames {
+		if vk.Thorough() || i < quickPlannerLeaves {
+			pl = append(pl, byName[n])
+		}
 	}
 	pt := leafTrees(pl)
 	d2 := level2(pt)
@@ -182,9 +184,10 @@ func TestCheck(t *testing.T) {
 	}
 	items, bound := workList()
 	type wc struct {
-		w  *W
-		ck *checker
-		sc *vk.Scenario
+		w    *W
+		ck   *checker
+		sc   *vk.Scenario
+		busy time.Duration
 	}
 	var worlds []*wc
 	for _, class := range classes {
@@ -197,7 +200,7 @@ func TestCheck(t *testing.T) {
 			}
 			sc := res.Scenario(w.name())
 			sc.Bound = bound
-			worlds = append(worlds, &wc{w, newChecker(w, sc), sc})
+			worlds = append(worlds, &wc{w: w, ck: newChecker(w, sc), sc: sc})
 		}
 	}
 	deadline := vk.Deadline()
@@ -225,8 +228,10 @@ func TestCheck(t *testing.T) {
 					continue
 				}
 			}
+			t0 := time.Now()
 			fs := x.ck.checkTree(it.t, it.brute && x.w.mode != "classic")
 			report(res, x.sc, x.w, it, fs)
+			x.busy += time.Since(t0)
 			if len(x.ck.genMemo) > 200000 {
 				x.ck.genMemo = map[string]genRes{}
 			}
@@ -241,6 +246,9 @@ func TestCheck(t *testing.T) {
 		}
 	}
 	if os.Getenv("VERIF_C08_TABLE") != "" {
+		for _, x := range worlds {
+			fmt.Printf("TIME %s %v queries=%d\n", x.w.name(), x.busy.Round(time.Millisecond), x.ck.st.queries)
+		}
 		printCoverage(worlds[0].ck, worlds[1].ck, worlds[2].ck, worlds[3].ck, worlds[4].ck, worlds[5].ck, worlds[6].ck, worlds[7].ck, worlds[8].ck)
 	}
 	res.Write()
